@@ -256,6 +256,14 @@ func runC19(c *Ctx) {
 			for _, fa := range fas {
 				got, found := keyGuard(fa.Block())
 				if !found {
+					// the field's address handed to a helper of the module: the key under which the helper writes through
+					// that parameter
+					for _, hg := range helperKeyGuards(p, fa) {
+						if hg != k.Name {
+							okAll = false
+							r3.Fail(fa.Pos(), p.FuncName(dec), k.Name+"<-"+hg, fmt.Sprintf("field %s (JSON key %q) is handed to a helper that decodes it under key %q: the value is lost (or taken from another key) on decode", k.Field.Name(), k.Name, hg))
+						}
+					}
 					continue // unconditional write or a guard we do not understand: not judged
 				}
 				if got != k.Name {
@@ -768,4 +776,52 @@ func isErrorSentinel(g *ssa.Global) bool {
 		}
 	}
 	return true
+}
+
+// helperKeyGuards: fa is passed (as a pointer) to functions of the module; for each write through the corresponding
+// parameter there (a store, or the parameter handed to a decoding call), the JSON key that guards it.
+func helperKeyGuards(p *Program, fa *ssa.FieldAddr) []string {
+	var out []string
+	for _, ref := range *fa.Referrers() {
+		ci, ok := ref.(ssa.CallInstruction)
+		if !ok {
+			continue
+		}
+		h := ci.Common().StaticCallee()
+		if h == nil || !p.inModule(h) || len(h.Blocks) == 0 {
+			continue
+		}
+		for j, a := range ci.Common().Args {
+			if a != ssa.Value(fa) || j >= len(h.Params) {
+				continue
+			}
+			prm := h.Params[j]
+			if prm.Referrers() == nil {
+				continue
+			}
+			var uses []ssa.Instruction
+			for _, r2 := range *prm.Referrers() {
+				switch x := r2.(type) {
+				case *ssa.Store:
+					if x.Addr == ssa.Value(prm) {
+						uses = append(uses, x)
+					}
+				case *ssa.MakeInterface:
+					for _, r3 := range *x.Referrers() {
+						if _, isCall := r3.(ssa.CallInstruction); isCall {
+							uses = append(uses, r3)
+						}
+					}
+				case ssa.CallInstruction:
+					uses = append(uses, x)
+				}
+			}
+			for _, u := range uses {
+				if g, found := keyGuard(u.Block()); found {
+					out = append(out, g)
+				}
+			}
+		}
+	}
+	return out
 }
